@@ -1,6 +1,6 @@
 """Static text of MANIFEST.json (claims per property, not-applicable reasons)."""
 
-FIX_COMMITS = ['4d9d134', 'f54a28a', 'a4ae092', 'c891418', '64aab20', '1d1cf24', '916dd96', '70f0952', 'a087607', 'dcd7c22', '2f66dcb', '296795c', '78699d2', '09de1e4', '5d4d796', '649d3b0', '7c47f12', 'cfa2159', '09fee46', '0f13caa', 'e7f9f7c', '9e55caf', 'e743bc0', '87e1be6', 'af1585c', '651e1aa']
+FIX_COMMITS = ['4d9d134', 'f54a28a', 'a4ae092', 'c891418', '64aab20', '1d1cf24', '916dd96', '70f0952', 'a087607', 'dcd7c22', '2f66dcb', '296795c', '78699d2', '09de1e4', '5d4d796', '649d3b0', '7c47f12', 'cfa2159', '09fee46', '0f13caa', 'e7f9f7c', '9e55caf', 'e743bc0', '87e1be6', 'af1585c', '651e1aa', 'f75ceef', '803899d']
 
 _NOTE = ('Trusted: cbmc/goto-instrument 6.11 (DFCC) + MiniSat; the extraction rules R1-R12 (DESIGN 3.1); every stub contract in the unit '
          'templates and /verif/shim (listed per unit in the evidence under replaced_by_contract / assumptions); bit-precise 64-bit machine '
@@ -30,7 +30,7 @@ CLAIMS = {
                 text='Component-level relational proof: for every op code, each specialised evaluation entry point returns the standard conversion of the generic result.',
                 design_ref='DESIGN.md 4 C11', note=_NOTE, technique='CBMC relational harness over mechanically extracted switch tables, full op-code domain'),
     'C12': dict(kernel='ordered de-duplicating insert of MutableNodeRefList (binary/linear search, dispatch), order flags of addNodesInDocOrder and of the namespace axis',
-                text='Component-level proof: the insertion point splits a strictly ordered list at the key for lists of any length (<= 1e8) and all index values; sortedness/duplicate-freedom preserved by insert; a source list is copied verbatim only when flagged document-ordered; the namespace axis collects in strictly descending document order before it reverses and flags its result. The other axes and multi-document interleaving (F15) are not covered.',
+                text='Component-level proof: the insertion point splits a strictly ordered list at the key for lists of any length (<= 1e8) and all index values; sortedness/duplicate-freedom preserved by insert; a source list is copied verbatim only when flagged document-ordered; the namespace axis collects in strictly descending document order before it reverses and flags its result. The other axes, Union/step merging and the bulk merge of lists from several documents are not covered.',
                 design_ref='DESIGN.md 4 C12', note=_NOTE, technique='CBMC function+loop contracts with ghost-witness instantiation (unbounded)'),
     'C13': dict(kernel='whitespace-stripping decision, its cached flag, and the observation paths that consult it: node tests text()/node(), the DOMServices string-value family (24 functions, both sinks), copying to the result tree',
                 text='Component-level proof: declarations stay ordered by priority with the later one first among equals and the first matching declaration decides; the cached flag is computed after the import merge; text()/node() never match a stripped text node; in the string-value family every text node is strip-checked before its data is emitted and no container is handed to the context-free walk while declarations exist; source subtrees copied to the result consult the declarations, result tree fragments never do. That the tree walks enumerate every node exactly once, keys, xsl:number and the source-tree builders are not covered.',
@@ -64,8 +64,8 @@ CLAIMS['C03'].update(
     kernel='memory-safety/UB obligations of every unit + fixed-buffer conversions, URI dot-segment removal, xsl:number count arrays, XPath token-queue cursor, ICU object caches',
     text='Component-level proof: bounds, pointer, overflow, conversion, division and shift obligations of every extracted function, for all inputs; the fixed-size buffer conversions the property singles out; the token-queue cursor of the XPath parser never leaves the queue (also on the error path); eviction in the ICU DecimalFormat/Collator caches destroys exactly the object of the entry that leaves. Exception-to-status mapping, leaks in general, the parsers and termination outside the listed loops are not covered.')
 CLAIMS['C04'].update(
-    kernel='UTF-8 and UTF-16 writers, surrogate decoding, escaping and CDATA state machines of FormatterToXMLUnicode, XalanOutputStream::write buffering, xsl:comment content repair (bounded)',
-    text=CLAIMS['C04']['text'].replace(' Serializer selection,', ' XalanOutputStream::write keeps the order of buffered and direct blocks and never overfills its buffer; xsl:comment content reaches the serializer without "--" or a trailing "-" (bounded stand-in, strings of <= 6 units). Serializer selection,'))
+    kernel='UTF-8 and UTF-16 writers, surrogate decoding, escaping and CDATA state machines of FormatterToXMLUnicode, XalanOutputStream::write buffering and multi-pass transcoding loop, xsl:comment content repair (loop contract), raw-text flag of XalanXMLSerializerBase',
+    text=CLAIMS['C04']['text'].replace(' Serializer selection,', ' XalanOutputStream::write keeps the order of buffered and direct blocks and never overfills its buffer; XalanOutputStream::transcode continues every pass where the previous one stopped and appends its bytes inside the destination; xsl:comment content reaches the serializer without "--" or a trailing "-" (loop contract on the real repair loop, strings of up to 1024 units; that nothing but spaces is added stays a bounded stand-in, <= 7 units); the raw-text flag is armed by the marker processing instruction only and used up by the text event that follows, characters() or cdata(). Serializer selection,'))
 CLAIMS['C06'].update(
     kernel=CLAIMS['C06']['kernel'] + '; NodeSorter scratch/caches under clear-guards; ElemForEach push/pop balance; install/uninstall of extension functions',
     text=CLAIMS['C06']['text'].replace(' History equivalence', ' The sorter copies nodes into its long-lived scratch vector only under a guard that clears it on every exit; what createSelectedAndSortedNodeList pushes is what releaseSelectedAndSortedNodeList pops; installExternalFunction maps the name to a clone of the new function also when the name was installed before. History equivalence'))
@@ -96,3 +96,10 @@ CLAIMS['C18'].update(
 CLAIMS['C20'].update(
     kernel=CLAIMS['C20']['kernel'] + '; XalanDOMString::assign(self range), substr, resize; XalanDeque resize and block management; XalanList::splice on real pointers',
     text=CLAIMS['C20']['text'].replace(' The other container templates are assumed.', ' assign(source, pos, n) is exact also for the string itself; XalanDeque resize/push_back/pop_back keep count and block ownership (index vs free list); XalanList::splice(pos, list, element) keeps every node of a 6-node closed world well linked for every aliasing. The other container operations are assumed.'))
+
+# ---- session 3 ----
+CLAIMS['C02'].update(
+    kernel=CLAIMS['C02'].get('kernel', '') + '; node-set comparison loops doCompareNodeSets / doCompareString / doCompareNumber and their dispatch compareNodeSets',
+    text=CLAIMS['C02']['text'].replace(' Known finding:', ' A comparison with a node-set operand is true iff the comparison is true for some node (pair of nodes), each comparison on the string-value (number) of exactly one node per side, operands in order; a result tree fragment operand is compared by string-value (XSLT 11.1). Known finding:'))
+CLAIMS['C12'].update(
+    text=CLAIMS['C12']['text'].replace(' The ordering predicates treat', ' The linear search keeps the nodes of one document together when the list holds nodes of several documents (two-witness postcondition + loop-free lemma over the search and predicate contracts). The ordering predicates treat'))
